@@ -370,7 +370,7 @@ def check(case):
                     continue          # no free parameter to rename
                 q = qn[0]
                 net.n_ren += 1
-                new = 'P%d' % net.n_ren
+                new = 'parameter display name no. %d (longer than any name of the model)' % net.n_ren
                 cur.set_parameter_names({net.pren.get(q, q): new})
                 net.pren[q] = new
             elif op == 'NO':
